@@ -209,8 +209,10 @@ def expected_store(spec, local_alleles=False):
         out.update(g)
     out["sample_id"] = {"dtype": "O", "shape": [len(spec["samples"])], "dims": ["samples"], "data": list(spec["samples"])}
     out["contig_id"] = {"dtype": "O", "shape": [ncontig], "dims": ["contigs"], "data": [c[0] for c in spec["contigs"]]}
-    if all(c[1] is not None for c in spec["contigs"]):
-        out["contig_length"] = {"dtype": "i8", "shape": [ncontig], "dims": ["contigs"], "data": [c[1] for c in spec["contigs"]]}
+    if any(c[1] is not None for c in spec["contigs"]):
+        # htslib/cyvcf2 convention: once any contig declares a length, the undeclared ones are reported as -1
+        out["contig_length"] = {"dtype": "i8", "shape": [ncontig], "dims": ["contigs"],
+                                "data": [-1 if c[1] is None else c[1] for c in spec["contigs"]]}
     out["filter_id"] = {"dtype": "O", "shape": [len(fl)], "dims": ["filters"], "data": fl}
     return out
 
